@@ -148,6 +148,319 @@ fn ranges<W: Write>(r: &mut Rng, n: usize, out: &mut W) -> usize {
     n
 }
 
+
+fn vjson(v: &Version) -> Value {
+    ver_to_json(v)
+}
+
+/// near-identical identifiers: differ only in case / digits / hyphens
+fn confusable_ids(r: &mut Rng) -> (Vec<Identifier>, Vec<Identifier>) {
+    const FAM: &[&str] = &["a", "A", "a-", "a0", "a1", "a10", "a2", "-a", "aa", "aA", "Aa", "a--", "a-0", "0a", "00a"];
+    let n = 1 + r.below(4) as usize;
+    let mut x: Vec<Identifier> = (0..n).map(|_| identifier(r)).collect();
+    let mut y = x.clone();
+    let k = r.below(n as u64) as usize;
+    match r.below(4) {
+        0 => {
+            x[k] = Identifier::AlphaNumeric(r.pick(FAM).to_string());
+            y[k] = Identifier::AlphaNumeric(r.pick(FAM).to_string());
+        }
+        1 => {
+            let a = r.below(12);
+            x[k] = Identifier::Numeric(a);
+            y[k] = Identifier::Numeric(a * 10 + r.below(3));
+        }
+        2 => {
+            y.truncate(k);
+        }
+        _ => {
+            x[k] = Identifier::Numeric(r.below(30));
+            y[k] = Identifier::AlphaNumeric(r.pick(FAM).to_string());
+        }
+    }
+    (x, y)
+}
+
+fn vorder<W: Write>(r: &mut Rng, n: usize, out: &mut W) -> usize {
+    let mut cnt = 0;
+    while cnt < n {
+        match r.below(10) {
+            0..=5 => {
+                // a pair sharing most of its fields
+                let mut a = version(r);
+                let mut b = a.clone();
+                match r.below(6) {
+                    0 => b.major = component(r),
+                    1 => b.minor = component(r),
+                    2 => b.patch = component(r),
+                    3 => {
+                        let (x, y) = confusable_ids(r);
+                        a.pre_release = x;
+                        b.pre_release = y;
+                    }
+                    4 => {
+                        b.pre_release = if r.chance(1, 2) { vec![] } else { idlist(r, 6) };
+                    }
+                    _ => {
+                        b.build = idlist(r, 3);
+                    }
+                }
+                if r.chance(1, 2) {
+                    std::mem::swap(&mut a, &mut b);
+                }
+                writeln!(out, "{}", json!({"op":"vcmp","a":vjson(&a),"b":vjson(&b)})).unwrap();
+            }
+            6 => {
+                let a = version(r);
+                let b = version(r);
+                writeln!(out, "{}", json!({"op":"vcmp","a":vjson(&a),"b":vjson(&b)})).unwrap();
+            }
+            _ => {
+                // a list with duplicates, build-only variants and confusable tags
+                let base = version(r);
+                let len = r.below(13) as usize;
+                let mut l = Vec::new();
+                for _ in 0..len {
+                    let mut v = base.clone();
+                    match r.below(7) {
+                        0 => v = version(r),
+                        1 => v.build = idlist(r, 2),
+                        2 => v.pre_release = confusable_ids(r).0,
+                        3 => v.pre_release = vec![],
+                        4 => v.patch = component(r),
+                        5 => v.minor = component(r),
+                        _ => {}
+                    }
+                    l.push(vjson(&v));
+                }
+                writeln!(out, "{}", json!({"op":"vsort","list":l})).unwrap();
+            }
+        }
+        cnt += 1;
+    }
+    cnt
+}
+
+fn vdiffs<W: Write>(r: &mut Rng, n: usize, out: &mut W) -> usize {
+    for _ in 0..n {
+        let small = |r: &mut Rng| match r.below(5) {
+            0 => 0,
+            1 => 1,
+            2 => 2,
+            _ => component(r),
+        };
+        let mut a = Version::from((small(r), small(r), small(r)));
+        if r.chance(1, 2) {
+            a.pre_release = idlist(r, 3);
+        }
+        let mut b = a.clone();
+        for f in 0..3 {
+            if r.chance(1, 3) {
+                let x = small(r);
+                match f {
+                    0 => b.major = x,
+                    1 => b.minor = x,
+                    _ => b.patch = x,
+                }
+            }
+        }
+        match r.below(4) {
+            0 => b.pre_release = vec![],
+            1 => b.pre_release = idlist(r, 3),
+            _ => {}
+        }
+        if r.chance(1, 4) {
+            a.build = idlist(r, 2);
+        }
+        if r.chance(1, 4) {
+            b.build = idlist(r, 2);
+        }
+        writeln!(out, "{}", json!({"op":"vdiff","a":vjson(&a),"b":vjson(&b)})).unwrap();
+    }
+    n
+}
+
+fn vtext_case<W: Write>(out: &mut W, s: &[u8]) {
+    // only valid UTF-8 can be passed to the API
+    if let Ok(t) = std::str::from_utf8(s) {
+        writeln!(out, "{}", json!({"op":"vparse","text":bytes(t)})).unwrap();
+    }
+}
+
+fn vtext<W: Write>(r: &mut Rng, n: usize, out: &mut W) -> usize {
+    const MAXS: &str = "900719925474099";
+    const MAXS1: &str = "900719925474100";
+    const U64M: &str = "18446744073709551615";
+    const U64M1: &str = "18446744073709551616";
+    let bases: Vec<String> = vec![
+        "1.2.3".into(), "0.0.0".into(), "10.20.30".into(), "1.2.3-alpha.1".into(), "1.2.3+build.5".into(),
+        "1.2.3-a-b.--.0a+001.-".into(), "1.0.0-0".into(), "1.2.3-rc.1+b".into(), "v1.2.3".into(), " 1.2.3 ".into(),
+        format!("{}.{}.{}", MAXS, MAXS, MAXS), format!("1.2.3-{}.{}", U64M, MAXS1), "1.2.3-01.x-y".into(),
+    ];
+    let alphabet: Vec<Vec<u8>> = vec![
+        b"0".to_vec(), b"1".to_vec(), b"9".to_vec(), b".".to_vec(), b"-".to_vec(), b"+".to_vec(), b"v".to_vec(), b"V".to_vec(),
+        b"a".to_vec(), b"Z".to_vec(), b"x".to_vec(), b"*".to_vec(), b" ".to_vec(), b"\t".to_vec(), b"\n".to_vec(), b"_".to_vec(),
+        "é".as_bytes().to_vec(), b"~".to_vec(), b"^".to_vec(), b"=".to_vec(), b"\0".to_vec(), "Ł".as_bytes().to_vec(),
+    ];
+    let mut all: Vec<Vec<u8>> = Vec::new();
+    for b in &bases {
+        let bb = b.as_bytes();
+        all.push(bb.to_vec());
+        for pos in 0..=bb.len() {
+            for sym in &alphabet {
+                let mut ins = bb[..pos].to_vec();
+                ins.extend_from_slice(sym);
+                ins.extend_from_slice(&bb[pos..]);
+                all.push(ins);
+                if pos < bb.len() {
+                    let mut rep = bb[..pos].to_vec();
+                    rep.extend_from_slice(sym);
+                    rep.extend_from_slice(&bb[pos + 1..]);
+                    all.push(rep);
+                }
+            }
+            if pos < bb.len() {
+                let mut del = bb[..pos].to_vec();
+                del.extend_from_slice(&bb[pos + 1..]);
+                all.push(del);
+            }
+        }
+    }
+    // numbers at and around the limits, in every position
+    for big in [MAXS, MAXS1, U64M, U64M1, "9007199254740991", "0900719925474099", "99999999999999999999999999"] {
+        for pos in 0..5 {
+            let mut parts = ["1".to_string(), "2".to_string(), "3".to_string(), "4".to_string(), "5".to_string()];
+            parts[pos] = big.to_string();
+            let s = format!("{}.{}.{}-{}+{}", parts[0], parts[1], parts[2], parts[3], parts[4]);
+            all.push(s.into_bytes());
+            if pos < 3 {
+                let s2 = format!("{}.{}.{}", parts[0], parts[1], parts[2]);
+                all.push(s2.clone().into_bytes());
+                all.push(format!("v{}", s2).into_bytes());
+                all.push(format!("{}\n", s2).into_bytes());
+                all.push(format!("x\n{}", s2).into_bytes());
+            }
+        }
+    }
+    // lengths at and around MAX_LENGTH, ending in 1-4 byte characters
+    for total in [254usize, 255, 256, 257, 258, 300] {
+        for tail in ["", "a", "é", "€", "😀", "-", ".", "+"] {
+            let head = "1.2.3-";
+            let fill = total.saturating_sub(head.len() + tail.len());
+            all.push(format!("{}{}{}", head, "a".repeat(fill), tail).into_bytes());
+            all.push(format!("{}{}{}", "x".repeat(total.saturating_sub(tail.len())), "", tail).into_bytes());
+            all.push(format!("1.2.3+{}{}", "0".repeat(fill), tail).into_bytes());
+        }
+        all.push(format!("{}1.2.3", " ".repeat(total - 5)).into_bytes());
+        all.push(format!("1.2.3{}", " ".repeat(total - 5)).into_bytes());
+        all.push(format!("{}.2.3", "0".repeat(total - 4)).into_bytes());
+    }
+    let mut cnt = 0;
+    if n >= all.len() {
+        for s in &all {
+            vtext_case(out, s);
+            cnt += 1;
+        }
+    } else {
+        // a seeded subset, every fifth of it drawn from the limit / length families at the end of the list
+        for _ in 0..(n * 7 / 10) {
+            let k = r.below(all.len() as u64) as usize;
+            vtext_case(out, &all[k]);
+            cnt += 1;
+        }
+        let tail_from = all.len().saturating_sub(400);
+        for _ in 0..(n / 10) {
+            let k = tail_from + r.below((all.len() - tail_from) as u64) as usize;
+            vtext_case(out, &all[k]);
+            cnt += 1;
+        }
+    }
+    // random strings
+    let soup: Vec<&str> = vec!["0", "1", "2", "9", ".", ".", "-", "+", "a", "b", "Z", "v", " ", "x", "é", "\n", "00", "10", "-0", ".0"];
+    while cnt < n {
+        let len = match r.below(4) {
+            0 => r.below(8),
+            1 => r.below(30),
+            2 => r.below(120),
+            _ => r.below(400),
+        };
+        let mut s = String::new();
+        if r.chance(2, 3) {
+            s.push_str(&version(r).to_string());
+        }
+        for _ in 0..len {
+            let piece: &str = *r.pick(&soup[..]);
+            s.push_str(piece);
+        }
+        vtext_case(out, s.as_bytes());
+        cnt += 1;
+    }
+    cnt
+}
+
+fn vtuples<W: Write>(r: &mut Rng, n: usize, out: &mut W) -> usize {
+    let types: [(&str, u64); 10] = [
+        ("u8", u8::MAX as u64), ("i8", i8::MAX as u64), ("u16", u16::MAX as u64), ("i16", i16::MAX as u64),
+        ("u32", u32::MAX as u64), ("i32", i32::MAX as u64), ("u64", MAX_SAFE_INTEGER), ("i64", MAX_SAFE_INTEGER),
+        ("usize", MAX_SAFE_INTEGER), ("isize", MAX_SAFE_INTEGER),
+    ];
+    let mut cnt = 0;
+    let mut emit = |out: &mut W, ty: &str, vals: &[u64]| {
+        writeln!(out, "{}", json!({"op":"vtuple","ty":ty,"vals":vals.iter().map(|x| digits(*x)).collect::<Vec<_>>()})).unwrap();
+    };
+    let thorough = n > 30000;
+    for (ty, max) in types.iter() {
+        let max = *max;
+        let grid: Vec<u64> = [0u64, 1, 2, 9, 10, 99, 100, 126, 127, 128, 255, 256, 65535, 65536, max - 1, max]
+            .iter().cloned().filter(|x| *x <= max).collect();
+        // per-position exhaustive for the 8-bit types
+        if max <= 255 {
+            for arity in [3usize, 4] {
+                for pos in 0..arity {
+                    for x in 0..=max {
+                        let reps = if thorough { 6 } else { 2 };
+                        for k in 0..reps {
+                            let mut vals: Vec<u64> = (0..arity).map(|_| if k == 0 { 0 } else { *r.pick(&grid) }).collect();
+                            vals[pos] = x;
+                            emit(out, ty, &vals);
+                            cnt += 1;
+                        }
+                    }
+                }
+            }
+        }
+        // full product over a boundary grid
+        let small: Vec<u64> = [0u64, 1, 10, max / 2, max].iter().cloned().collect();
+        for a in &small {
+            for b in &small {
+                for c in &small {
+                    emit(out, ty, &[*a, *b, *c]);
+                    cnt += 1;
+                    for d in &small {
+                        if thorough || r.chance(1, 3) {
+                            emit(out, ty, &[*a, *b, *c, *d]);
+                            cnt += 1;
+                        }
+                    }
+                }
+            }
+        }
+    }
+    // random values, the same values through every type that can hold them
+    while cnt < n {
+        let arity = 3 + r.below(2) as usize;
+        let cap = *r.pick(&[127u64, 255, 32767, 65535, 2147483647, 4294967295, MAX_SAFE_INTEGER]);
+        let vals: Vec<u64> = (0..arity).map(|_| match r.below(3) { 0 => r.below(cap + 1), 1 => cap - r.below(3.min(cap)), _ => r.below(12) }).collect();
+        for (ty, max) in types.iter() {
+            if vals.iter().all(|x| x <= max) {
+                emit(out, ty, &vals);
+                cnt += 1;
+            }
+        }
+    }
+    cnt
+}
+
 pub fn generate<W: Write>(scenario: &str, seed: u64, n: usize, out: &mut W) -> usize {
     let mut h: u64 = 1469598103934665603;
     for b in scenario.bytes() {
@@ -156,6 +469,10 @@ pub fn generate<W: Write>(scenario: &str, seed: u64, n: usize, out: &mut W) -> u
     let mut r = Rng(seed ^ h);
     match scenario {
         "ranges" => ranges(&mut r, n, out),
+        "vorder" => vorder(&mut r, n, out),
+        "vdiffs" => vdiffs(&mut r, n, out),
+        "vtext" => vtext(&mut r, n, out),
+        "vtuples" => vtuples(&mut r, n, out),
         _ => {
             eprintln!("unknown scenario {}", scenario);
             std::process::exit(2);
